@@ -846,6 +846,8 @@ class LayoutTyper(Structured):
                 'leading axes of an array laid out by %s moved to the positions %s.axes(%s)'
                 % (show(base), show(E), show(S)))
             if ok:
+                if padded and ('padded-to', E) in arr.flags and isinstance(E, tuple) and E[0] == 'project' and E[1] == base:
+                    padded = False     # padded up to the rank of a projection of its OWN domain: at most as many attributes, no axis was added
                 return V('arr', E, deps=arr.deps, flags={'partial'} if padded else ())
             return V('arr', ('positional', 'moveaxis to foreign positions'), deps=arr.deps)
         if sv.kind == 'axes' and is_leading_range(dst, src, sv) and not padded:
